@@ -247,6 +247,27 @@ func (g *LibGen) genBatch() string {
 	return strings.Join(pts, ",")
 }
 
+// genHugeBatch (C05): more than 4096 slots of one archive written by one call, the handle
+// abandoned before any Sync — the disk must not have changed — then the same with a Sync
+func genHugeBatch(r *Rng, prop string) []Op {
+	lay := Layout{[]int{1, 10}, []int{4400 + r.Intn(300), 500}}
+	if r.Bool() {
+		lay = Layout{[]int{1}, []int{4200 + r.Intn(400)}}
+	}
+	now := 1600000000 + r.Intn(100000000)
+	agg, xff := 1+r.Intn(6), math.Float32bits(0.5)
+	var pts []string
+	for j := 0; j < 4096+r.Intn(100); j++ {
+		pts = append(pts, fmt.Sprintf("%d:%s", now-j, genVal(r, false)))
+	}
+	batch := fmt.Sprintf("updmany 0 %d %s", now, strings.Join(pts, ","))
+	hs := lay.HdrSize()
+	return []Op{{"reset", false}, {fmt.Sprintf("create %s %d %08x", lay, agg, xff), true}, {"sync", true},
+		{batch, true}, {fmt.Sprintf("disk %d", hs), true}, {"drop", false}, {"open", true},
+		{fmt.Sprintf("disk %d", hs), true}, {fmt.Sprintf("fetch 0 %d %d %d", now-50, now, now), true},
+		{batch, true}, {"sync", true}, {fmt.Sprintf("disk %d", hs), true}}
+}
+
 // XffBoundary (C02): two archives with step ratio n, xFilesFactor = float32(k)/float32(n) or
 // a float32 neighbour (or a short decimal), and exactly k−1, k, k+1 known finer values
 // inside coarse intervals: is the coarser slot stored or left alone?
@@ -325,7 +346,9 @@ func (g *LibGen) window(k int) (int, int) {
 	}
 	s, n := l.Steps[k], l.Ns[k]
 	ret := s * n
-	switch g.r.Intn(10) {
+	switch g.r.Intn(11) {
+	case 10: // the smallest timestamp there is as `until`: an empty window, or from > until
+		return []int{0, 0, 100, g.now - 1}[g.r.Intn(4)], 0
 	case 0: // whole retention
 		return g.now - ret, g.now
 	case 1: // from=0
